@@ -521,7 +521,7 @@ pub fn check(prop: &str, scenarios: &[&'static dyn Scenario], tier: Tier, level:
                 continue;
             }
             n_viol += 1;
-            let class = format!("{}:{}", scn.name(), v.oracle);
+            let class = format!("{}:{}", scn.name(), key);
             if reported.contains(&class) && reported.len() >= 1 {
                 continue; // one replay file per (scenario, oracle) class
             }
